@@ -52,6 +52,9 @@ add("C15", "E-SIM", "property-based testing: independently generated writer-side
 add("C16", "E-SIM", "model-based property testing: generated create/delete/set_qos/partition/crash histories vs matched-set model (R-COUNT) plus wire monitor for traffic toward departed endpoints",
     "Held on N generated histories over up to 3 remote endpoints; ignore_* not exercised.", SIM_NOTE)
 
+add("C17", "E-SIM", "property-based testing: generated participant sets (domain id x tag), announcement fault tape with optional cross-domain delivery, crash instants and ignore; discovery/isolation/lease-window oracle in virtual time",
+    "Held on N generated configurations; only the 100 s lease dust-dds announces is exercised.", SIM_NOTE)
+
 # checks built by helper engines: metadata comes from tools/fragments/<ID>.json
 FRAGMENT_ENGINE = {"C08": "E-CODEC", "C14": "E-CODEC", "C38": "E-CODEC", "C34": "E-CHAN", "C42": "E-RT", "C40": "E-GEN", "C41": "E-GEN",
                    "C09": "E-CODEC", "C10": "E-CODEC", "C11": "E-CODEC", "C12": "E-CODEC", "C39": "E-CODEC", "C07": "E-CODEC", "C13": "E-CODEC",
